@@ -20,6 +20,10 @@ type solverDef struct {
 var solvers = []solverDef{
 	{"z3-new", func(f string, t int) []string { return []string{"z3-new", fmt.Sprintf("-T:%d", t), f} }},
 	{"z3", func(f string, t int) []string { return []string{"z3", fmt.Sprintf("-T:%d", t), f} }},
+	// the same solver under two other seeds: quantifier-instantiation order is seed-dependent and an
+	// obligation that one run decides in a fraction of a second another run may not decide at all
+	{"z3-new/seed7", func(f string, t int) []string { return []string{"z3-new", fmt.Sprintf("-T:%d", t), "smt.random_seed=7", f} }},
+	{"z3-new/seed13", func(f string, t int) []string { return []string{"z3-new", fmt.Sprintf("-T:%d", t), "smt.random_seed=13", f} }},
 	{"cvc5", func(f string, t int) []string {
 		return []string{"cvc5", "--lang=smt2", fmt.Sprintf("--tlimit=%d", t*1000), "--produce-models", f}
 	}},
@@ -171,7 +175,7 @@ func raceOne(vc *VC, ob *Oblig, base string, cfg solveCfg) {
 	for _, s := range solvers {
 		s := s
 		go func() {
-			f := fmt.Sprintf("%s.%s.smt2", base, s.name)
+			f := fmt.Sprintf("%s.%s.smt2", base, strings.ReplaceAll(s.name, "/", "_"))
 			os.WriteFile(f, []byte(forSolver(s.name, script)), 0o644)
 			t0 := time.Now()
 			out, _ := runCmd(ctx, s.args(f, tmo))
